@@ -215,22 +215,14 @@ impl QueryNode {
                         // Put in ' AND ' if this isn't the first node we wrote
                         output.push_str(" AND ");
                     }
-                    if let QueryNode::NegatedNode { node } = n {
-                        output.push_str("NOT ");
-                        let qstr = if let QueryNode::Boolean { .. } = **node {
-                            format!("({})", node.to_lucene())
-                        } else {
-                            node.to_lucene()
-                        };
-                        output.push_str(&qstr);
+                    // A negated child renders itself (`NOT x`, `NOT (..)` around a nested
+                    // negation or boolean).
+                    let qstr = if let QueryNode::Boolean { .. } = n {
+                        format!("({})", n.to_lucene())
                     } else {
-                        let qstr = if let QueryNode::Boolean { .. } = n {
-                            format!("({})", n.to_lucene())
-                        } else {
-                            n.to_lucene()
-                        };
-                        output.push_str(&qstr);
-                    }
+                        n.to_lucene()
+                    };
+                    output.push_str(&qstr);
                 }
                 output
             }
